@@ -16,6 +16,22 @@ func readFile(dir, name string) ([]byte, error) {
 // mismatch records TLC wrote. Exit 0 = all accepted, exit 10/13 with a
 // mismatch file = disagreements; everything else is a tool failure.
 func (c *Ctx) validateTraces(module, spec, post string, trace []byte, files map[string][]byte, heapGB int) []map[string]interface{} {
+	mm, err := c.validateTracesE(module, spec, post, trace, files, heapGB)
+	if err != "" {
+		c.die("%s", err)
+	}
+	return mm
+}
+
+// validateTracesE is validateTraces returning tool failures as a string
+// (safe to call from several goroutines).
+func (c *Ctx) validateTracesE(module, spec, post string, trace []byte, files map[string][]byte, heapGB int) ([]map[string]interface{}, string) {
+	mm, _, err := c.validateTracesS(module, spec, post, trace, files, heapGB)
+	return mm, err
+}
+
+// validateTracesS also returns the per-trace summary records (summary.ndjson), if the module writes them.
+func (c *Ctx) validateTracesS(module, spec, post string, trace []byte, files map[string][]byte, heapGB int) ([]map[string]interface{}, []map[string]interface{}, string) {
 	cfg := fmt.Sprintf("SPECIFICATION %s\nPOSTCONDITION %s\nCHECK_DEADLOCK FALSE\n", spec, post)
 	fs := map[string][]byte{"trace.ndjson": trace}
 	for k, v := range files {
@@ -25,20 +41,23 @@ func (c *Ctx) validateTraces(module, spec, post string, trace []byte, files map[
 		heapGB = 4
 	}
 	r := c.runTLC(TLCRun{Module: module, Cfg: cfg, Files: fs, Workers: 1, HeapGB: heapGB, Timeout: 30 * time.Minute})
+	c.mu.Lock()
 	c.account(r)
+	c.mu.Unlock()
 	mm, err := readNDJSON(filepath.Join(r.Dir, "mismatch.ndjson"))
 	if err != nil {
-		c.die("TLC %s: no mismatch file (exit %d)\n%s", module, r.Exit, c.tlcTail(r))
+		return nil, nil, fmt.Sprintf("TLC %s: no mismatch file (exit %d)\n%s", module, r.Exit, c.tlcTail(r))
 	}
+	sum, _ := readNDJSON(filepath.Join(r.Dir, "summary.ndjson"))
 	if !strings.Contains(r.Out, "\"TRACES\"") {
-		c.die("TLC %s: postcondition not evaluated (exit %d)\n%s", module, r.Exit, c.tlcTail(r))
+		return nil, nil, fmt.Sprintf("TLC %s: postcondition not evaluated (exit %d)\n%s", module, r.Exit, c.tlcTail(r))
 	}
 	if r.Exit == 0 && len(mm) == 0 {
-		return nil
+		return nil, sum, ""
 	}
 	if len(mm) == 0 {
 		// not all traces consumed, or some other failure
-		c.die("TLC %s exit %d without mismatches\n%s", module, r.Exit, c.tlcTail(r))
+		return nil, nil, fmt.Sprintf("TLC %s exit %d without mismatches\n%s", module, r.Exit, c.tlcTail(r))
 	}
-	return mm
+	return mm, sum, ""
 }
